@@ -53,7 +53,12 @@
 //	not-once:missing:multi-entry  a name with several entries, not removed: none of its handlers fired
 //	side:before / side:after      a Before/After(name) constraint is broken although an
 //	                              order satisfying all requested constraints exists
-//	side:star                     same for Before/After("*") (weak reading, see Assumptions)
+//	side:star                     same for Before/After("*") (weak reading, see Assumptions), the callback
+//	                              carries a named request of its own on the other side (Before(x).After("*"))
+//	side:star:rewritten           same, it carries none, but another Register/Replace call names it
+//	side:star:earlier-life        same, neither, but the name was removed earlier and a call that registered it
+//	                              in that earlier life carried a named request
+//	side:star:other               same, no named request touches the callback or an earlier life of its name
 //	contradiction-accepted:named  the named constraints (+ built-in order) cannot all hold,
 //	                              no call returned an error, a constraint is broken
 //	contradiction-accepted:star   satisfiable without the "*" constraints, not with them
@@ -682,6 +687,8 @@ type nameState struct {
 	// the handler of a later plain Replace runs (mustLast) and that none runs after a Remove.
 	multi        bool
 	mustLast     bool  // the newest handler is the one that has to fire
+	pastNamed    bool  // the name had an earlier life (ended by Remove) in which a call registering it carried a named request
+	namedBy      bool  // a Register/Replace call of another callback (live or removed since) names it in Before/After
 	alts         []int // multi: the older handlers, still acceptable
 	dead         []int // handlers that belonged to the name when a Remove hit it (this and earlier lives)
 	removedMulti bool  // the Remove that ended the current/last life hit a multi name
@@ -704,9 +711,11 @@ func model(p *pipeline, seq []step) map[int]*nameState {
 	for i := range p.builtins {
 		m[i] = &nameState{live: true, handler: -1, bef: none, aft: none, mustLast: true}
 	}
+	everNamed := map[int]bool{} // names whose Register/Replace calls so far carried a named (not "*") request
 	fresh := func(n int, ns *nameState) {
 		if old := m[n]; old != nil {
 			ns.dead = old.dead
+			ns.pastNamed = everNamed[n]
 		}
 		m[n] = ns
 	}
@@ -742,6 +751,19 @@ func model(p *pipeline, seq []step) map[int]*nameState {
 				ns.live = false
 				ns.removedMulti = ns.multi
 				ns.dead = append(append(ns.dead, ns.handler), ns.alts...)
+			}
+		}
+		if s.Op != opRemove && (s.Bef != none && s.Bef != idStar || s.Aft != none && s.Aft != idStar) {
+			everNamed[n] = true
+		}
+	}
+	for _, s := range seq {
+		if s.Op == opRemove {
+			continue
+		}
+		for _, t := range []int{int(s.Bef), int(s.Aft)} {
+			if ns := m[t]; ns != nil && t != int(s.Name) {
+				ns.namedBy = true
 			}
 		}
 	}
@@ -1420,7 +1442,7 @@ func check(p *pipeline, m map[int]*nameState, trace []ev, modeA, touched, failed
 		switch r.class {
 		case "builtin-order":
 			st.builtinPairs++
-		case "side:star":
+		case "side:star", "side:star:rewritten", "side:star:earlier-life", "side:star:other":
 			st.star++
 		default:
 			st.constraints++
@@ -1494,6 +1516,20 @@ func requirements(p *pipeline, m map[int]*nameState, withWeak bool) (out []req, 
 				}
 			}
 			if t == idStar {
+				// by structural precondition: the callback carries a named request of its own on the
+				// other side (Before(x).After("*"): the known "star side ignored once the named request
+				// placed it"); it carries none but another registration names it (the known rewriting of
+				// stored requests can overwrite the star request); it has neither, but the name had an
+				// earlier life, ended by Remove, whose registration carried a named request (requests
+				// derived from it are known to survive the Remove); none of these
+				starClass := "side:star:other"
+				if o := []int{ns.aft, ns.bef}[side]; o != none && o != idStar {
+					starClass = "side:star"
+				} else if ns.namedBy {
+					starClass = "side:star:rewritten"
+				} else if ns.pastNamed {
+					starClass = "side:star:earlier-life"
+				}
 				// weak reading of "*": every built-in and every callback registered
 				// without any constraint
 				for _, y := range ids {
@@ -1504,7 +1540,7 @@ func requirements(p *pipeline, m map[int]*nameState, withWeak bool) (out []req, 
 					if y >= userBase && (ys.bef != none || ys.aft != none) {
 						continue
 					}
-					mk(y, "side:star", fmt.Sprintf("%s was registered %s \"*\" but fired on the other side of %s", p.nameOf(id), word, p.nameOf(y)))
+					mk(y, starClass, fmt.Sprintf("%s was registered %s \"*\" but fired on the other side of %s", p.nameOf(id), word, p.nameOf(y)))
 				}
 				continue
 			}
@@ -1528,7 +1564,7 @@ func satisfiable(reqs []req, withStar bool) bool {
 	succ := map[int][]int{}
 	indeg := map[int]int{}
 	for _, r := range reqs {
-		if r.class == "side:star" && !withStar {
+		if strings.HasPrefix(r.class, "side:star") && !withStar {
 			continue
 		}
 		succ[r.first] = append(succ[r.first], r.second)
